@@ -32,6 +32,24 @@ class Ref:
                     self.collect(fr["sel"], R, out, guard + (it[1],))
         return out
 
+    def collect_scopes(self, items, R, scope, out=None, guard=()):
+        """like collect, but -> {response key: type whose selection set holds the winning item} (the declaration a
+        per-declaration attribute such as @deprecated is read from)"""
+        out = {} if out is None else out
+        for it in items:
+            if it[0] == "typename":
+                out.setdefault("__typename", scope)
+            elif it[0] == "field":
+                out.setdefault(it[1] or it[2], scope)
+            elif it[0] == "inline":
+                if self.s.applies(it[1], R):
+                    self.collect_scopes(it[2], R, it[1], out, guard)
+            elif it[0] == "spread":
+                fr = self.frags[it[1]]
+                if self.s.applies(fr["on"], R) and it[1] not in guard:
+                    self.collect_scopes(fr["sel"], R, fr["on"], out, guard + (it[1],))
+        return out
+
     def common_keys(self, items, static_type, out=None, guard=()):
         """keys owned by the scope itself (not by a variant): direct fields and spreads on the static type"""
         out = {} if out is None else out
@@ -107,6 +125,7 @@ class PayloadGen:
         if self.s.kind(static_type) != "object":
             self.count("abstract-position")
         fields = self.ref.collect(items, R)
+        scopes = self.ref.collect_scopes(items, R, static_type) if self.drop_deprecated else {}
         p, e = {}, {}
         for key, it in fields.items():
             if it[0] == "typename":
@@ -120,7 +139,9 @@ class PayloadGen:
                 f = self.s.field(static_type, it[2])
             pv, ev = self.gen_t(f["type"], it[4], depth, path + (key,))
             p[key] = pv
-            if ev is not None and not (self.drop_deprecated and f.get("deprecated") is not None):
+            # deprecation is read from the declaration in whose scope the field was selected (interface vs implementing object)
+            decl = (self.s.field(scopes.get(key), it[2]) if scopes.get(key) else None) or f
+            if ev is not None and not (self.drop_deprecated and decl.get("deprecated") is not None):
                 e[key] = ev
         return p, e
 
